@@ -32,6 +32,8 @@ type preludeBlock struct {
 }
 
 type Engine struct {
+	cellVars    map[*types.Var]bool
+	cntNames    []string
 	fset        *token.FileSet
 	repo        string
 	verifDir    string
